@@ -22,6 +22,8 @@ type anCase struct {
 	Cmt      bool              `json:"cmt"`
 	Paren    bool              `json:"paren"`
 	Fun      bool              `json:"fun"`
+	Subject  string            `json:"subject"`
+	Vis      string            `json:"vis"`
 }
 
 // anJoin writes a token sequence in the documented style (variant 0) or as tight as the tokens allow (variant 1).
@@ -292,9 +294,19 @@ func checkC16(c *Ctx) {
 				if pl, _ := s0["ParentNameList"].([]interface{}); len(pl) != 1 {
 					sfacts = fmt.Sprintf("parents understood as %v", s0["ParentNameList"])
 				}
+			case "field", "fieldvis", "fieldpub", "fieldpriv":
+				sc, _ := s0["FieldScopeType"].(float64)
+				if got := []string{"public", "protected", "private"}[int(sc)%3]; got != a.Vis {
+					sfacts = fmt.Sprintf("visibility understood as %s, written %s", got, a.Vis)
+				}
 			case "generic2":
 				if nl, _ := s0["NameList"].([]interface{}); len(nl) != 2 {
 					sfacts = fmt.Sprintf("generic names understood as %v", s0["NameList"])
+				}
+			}
+			if a.Subject != "" {
+				if nm, _ := s0["Name"].(string); nm != a.Subject {
+					sfacts += fmt.Sprintf(" declared name understood as %q, written %q", nm, a.Subject)
 				}
 			}
 			if a.Cmt {
